@@ -67,13 +67,16 @@ func makeURLKey(u *url.URL) string {
 	}
 	// RFC 3986 §6.2.2.3: Path normalization (dot-segment removal) is handled by
 	// [url.URL.ResolveReference], which uses the RFC 3986 §5.2.4 algorithm.
-	base, err := url.Parse(u.Scheme + "://" + u.Host)
-	if err != nil || base == nil {
-		// Not an absolute URL (e.g. no scheme); the upstream round tripper
-		// rejects such requests, so the key only has to be well-defined.
+	if u.Scheme == "" {
+		// Not an absolute URL; the upstream round tripper rejects such
+		// requests, so the key only has to be well-defined.
 		return u.String()
 	}
+	// (built, not parsed: a host with an IPv6 zone holds the decoded "%zone",
+	// which does not parse back)
+	base := &url.URL{Scheme: strings.ToLower(u.Scheme), Host: u.Host}
 	normalized := base.ResolveReference(u)
+	normalized.Scheme = base.Scheme
 
 	// RFC 3986 §6.2.2.1: Scheme is lowercased (already done by [url.Parse]).
 	scheme := normalized.Scheme
@@ -83,8 +86,12 @@ func makeURLKey(u *url.URL) string {
 	if port == "" {
 		port = defaultP
 	}
-	// RFC 3986 §6.2.2.1: Host is lowercased.
+	// RFC 3986 §6.2.2.1: Host is lowercased (an IPv6 zone identifier is not
+	// part of the address and keeps its case, RFC 6874).
 	hostPort := strings.ToLower(host)
+	if i := strings.IndexByte(host, '%'); i >= 0 && strings.Contains(host[:i], ":") {
+		hostPort = strings.ToLower(host[:i]) + host[i:]
+	}
 	if strings.Contains(hostPort, ":") {
 		// IP-literal: keep the brackets, otherwise "[::1]:8080" and "[::1:8080]"
 		// would share a key.
